@@ -222,6 +222,65 @@ pub fn tokenize_case(rng: &mut Rng, out: &mut Out) {
     out.count("tokenize_cases", 1);
 }
 
+/// canonical tokenizer (forced bytes, token healing): forced text followed by a choice between more
+/// text and a token reference; every token the mask offers — special or not — must be committable,
+/// and special tokens are offered only at the position of the reference
+pub fn canon_case(rng: &mut Rng, out: &mut Out) {
+    let (mut ws, _, _) = special_vocab(rng);
+    ws.pop(); // the EOS entry goes last again
+    for w in ["abc", "abcd", "cdx", "abx", "b<", "c<|"] {
+        ws.push(w.as_bytes().to_vec());
+    }
+    ws.push(b"\xFF<|eos|>".to_vec());
+    let eos = (ws.len() - 1) as u32;
+    let specials: Vec<u32> = ws.iter().enumerate().filter(|(_, w)| w.first() == Some(&0xFF)).map(|(i, _)| i as u32).collect();
+    let env = make_env(&ws, eos, true);
+    let text = *rng.pick(&["ab", "cd", "xab", "a"]);
+    let more = *rng.pick(&["c", "x", "cd", "<", "d"]);
+    let reference = match rng.below(4) {
+        0 => "<|tool|>".to_string(),
+        1 => "<think>".to_string(),
+        2 => format!("<[{}-{}]>", 256 + rng.below(10), 270 + rng.below(10)),
+        _ => "<[*]>".to_string(),
+    };
+    let tail = if rng.chance(1, 2) { " \"!\"" } else { "" };
+    let lark = match rng.below(3) {
+        0 => format!("start: \"{text}\" ( \"{more}\" | {reference} ){tail}\n"),
+        1 => format!("start: \"{text}\" {reference} \"{more}\"{tail}\n"),
+        _ => format!("start: \"{text}\" ( {reference} | \"{more}\" {reference} ){tail}\n"),
+    };
+    let Ok(mut m) = new_matcher(&env, &lark, &[]) else {
+        out.count("grammar_rejected", 1);
+        return;
+    };
+    let mut hist: Vec<u32> = vec![];
+    for _ in 0..6 {
+        if m.is_stopped() {
+            break;
+        }
+        let Ok(mask) = m.compute_mask() else { break };
+        let ml = mask_list(&mask);
+        for &t in &ml {
+            let mut c = m.deep_clone();
+            if c.consume_token(t).is_err() {
+                out.violation(
+                    &format!("canonical tokenizer: the mask offers token {t} ({:?}) but committing it fails, after {:?}", String::from_utf8_lossy(&ws[t as usize]), hist),
+                    lark.clone(),
+                );
+                return;
+            }
+        }
+        out.count("canonical_mask_tokens", ml.len() as u64);
+        let Some(t) = pick_token(rng, &ml, &ws, eos) else { break };
+        if m.consume_token(t).is_err() {
+            break;
+        }
+        hist.push(t);
+        let _ = &specials;
+    }
+    out.count("canonical_cases", 1);
+}
+
 pub fn run(rng: &mut Rng, out: &mut Out, tier: &str) {
     let n = if tier == "thorough" { 8000 } else { 800 };
     for i in 0..n {
@@ -229,5 +288,7 @@ pub fn run(rng: &mut Rng, out: &mut Out, tier: &str) {
         ref_case(&mut r, out);
         let mut r = rng.fork(0x7000_0000 + i as u64);
         tokenize_case(&mut r, out);
+        let mut r = rng.fork(0x7100_0000 + i as u64);
+        canon_case(&mut r, out);
     }
 }
